@@ -11,3 +11,10 @@ package settings
 //@ mode nosafety
 //@ bounded 600
 //@ ensures[C32:configured-proxy-list-survives-the-merge] result
+
+// The accessor hands out the configured list as it is - it neither drops nor rewrites entries (which entries are
+// usable is judged where they are parsed, and an entry dropped here could turn a configured list into "no list").
+//@ func (*Settings).TrustedProxyCIDRs
+//@ mode nosafety
+//@ ensures[C32:configured-proxy-list-handed-out-unchanged] s.trustedProxyCIDRs != nil ==> same(result, s.trustedProxyCIDRs)
+//@ ensures[C32:no-configured-list-is-an-empty-list] s.trustedProxyCIDRs == nil ==> len(result) == 0
